@@ -501,7 +501,7 @@ META = {
             "form requests and answers in SPARQL XML or JSON): exhaustive term transport of a literal/IRI table for all six method x format combinations, and all "
             "operation histories to a stated depth for Graph and Dataset clients under every autocommit x dirty_reads configuration, with a model of committed content "
             "plus a queue of uncommitted writes; the endpoint's dataset is inspected directly after every step and every read is compared with the local answer.",
-    "note": "The endpoint is rdflib's own engine; 3 triples (one with a falsy, one with a TAB object) x 2 graphs; depth 3 (quick) / 4 (thorough) on a sub-alphabet; HTTP "
+    "note": "The endpoint is rdflib's own engine; 3 triples (one with a falsy, one with a TAB object) x 2 graphs; depth 3 (quick) / 4 (thorough) on a sub-alphabet; query and update with two initial bindings; HTTP "
             "errors, authentication and real sockets are out of scope.",
     "technique": "exhaustive enumeration of client operation histories against a loopback protocol endpoint with a committed/queued reference model",
 }
